@@ -149,7 +149,7 @@ func runStateCases(r *hx.Rng, n int, pool []part) (terms []string, raw []string,
 		}
 		c := &composition{headers[r.Intn(len(headers))] + "jobs:\n", ps}
 		src, _ := c.source()
-		if strings.Contains(src, "matrix: ${{ inputs }}") {
+		if strings.Contains(src, "matrix: ${{ inputs }}") || strings.Contains(src, "- ${{ inputs }}") || strings.Contains(src, "- ${{ github }}") {
 			// the type of such a matrix is a context object of the running rule; the K1 model
 			// takes matrix types from a fresh rule (VerifMatrixTypeOf): oracle-only shape
 			continue
